@@ -24,6 +24,8 @@ type Ent struct {
 	Roles []string
 	Note  string
 	Ref   *string
+	// Data is a free-form document persisted with PersistContext.SetMap (nesting allowed); only written when non-nil
+	Data map[string]interface{}
 	// Serial is an int64 field (unique index over a non-string value when StoreCfg.UniqueSerial is set)
 	Serial int64
 	// LinkField / LinkIDs: when LinkField is set, PersistEntity hands LinkIDs to PersistContext.SetLinkedIds
@@ -47,6 +49,7 @@ const (
 	FRef    = "ref"
 	FExtra  = "extra"
 	FSerial = "serial"
+	FData   = "data"
 )
 
 type entStrategy struct {
@@ -82,6 +85,9 @@ func (s entStrategy) PersistEntity(e *Ent, ctx *boltz.PersistContext) {
 	ctx.SetString(s.k(FNote), e.Note)
 	ctx.SetStringP(s.k(FRef), e.Ref)
 	ctx.SetInt64(FSerial, e.Serial)
+	if e.Data != nil {
+		ctx.SetMap(FData, e.Data)
+	}
 	if e.LinkField != "" && ctx.Store.GetLinkCollection(e.LinkField) != nil {
 		ctx.SetLinkedIds(e.LinkField, e.LinkIDs)
 	}
@@ -404,8 +410,9 @@ type EntSpec struct {
 	Migrate  bool     `json:"migrate,omitempty"` // BaseExtEntity.Migrate: keep the payload's timestamps on create
 	Extra    string   `json:"extra,omitempty"`   // child stores only
 	TagV     *string  `json:"tag,omitempty"`     // tags = {"t": TagV} when set
-	// BadTags: the tag map holds a value that cannot be stored ("nested-in-list": an entry with an empty key inside a
-	// map inside a list; "top-level": an entry with an empty key). Writing the tags must fail.
+	// BadTags: a map field holds a value that cannot be stored. "nested-in-list": the free-form document "data"
+	// (PersistContext.SetMap, nesting allowed) has an entry with an empty key inside a map inside a list;
+	// "top-level": the tag map has an entry with an empty key. Writing the field must fail.
 	BadTags string `json:"badTags,omitempty"`
 	// LinkField / LinkIDs: persist the many-to-many field LinkField with PersistContext.SetLinkedIds(LinkField, LinkIDs)
 	LinkField string   `json:"linkField,omitempty"`
@@ -420,8 +427,7 @@ func (s EntSpec) ToEnt(typ, id string) *Ent {
 	e.LinkField, e.LinkIDs = s.LinkField, append([]string(nil), s.LinkIDs...)
 	switch s.BadTags {
 	case "nested-in-list":
-		e.Tags = map[string]interface{}{"servers": []interface{}{"a", map[string]interface{}{"host": "b", "": 2}}}
-		return e
+		e.Data = map[string]interface{}{"servers": []interface{}{"a", map[string]interface{}{"host": "b", "": 2}}}
 	case "top-level":
 		e.Tags = map[string]interface{}{"t": "x", "": "y"}
 		return e
@@ -816,7 +822,7 @@ func (m *Model) Update(store, id string, s EntSpec, fields []string, system bool
 	if sel(FSerial) {
 		next.Serial = s.Serial
 	}
-	if sel(boltz.FieldTags) && s.BadTags != "" {
+	if sel(boltz.FieldTags) && s.BadTags == "top-level" || sel(FData) && s.BadTags == "nested-in-list" {
 		return []string{ErrStorage}
 	}
 	if sel(boltz.FieldTags) {
